@@ -1,7 +1,242 @@
-//! C17 - placeholder, replaced below.
-use crate::model::Analysis;
-use crate::oracle::{Aux, Tally, Violation};
+//! C17 - SMB1/SMB2: negotiate / session-setup replies framed, correlated, consistent.
 
-pub fn check(_a: &Analysis, _aux: &mut Aux, _t: &mut Tally) -> Vec<Violation> {
-    Vec::new()
+use crate::apps::sig::{self, Decision};
+use crate::apps::smb::{self, Smb1Hdr, Smb2Hdr, SmbClass};
+use crate::apps::App;
+use crate::model::Analysis;
+use crate::oracle::{Aux, Tally, Verdict, Violation};
+
+fn is_smb_reply(r: &[u8]) -> bool {
+    r.len() >= 8 && (&r[4..8] == b"\xffSMB" || &r[4..8] == b"\xfeSMB")
+}
+
+fn judge(payload: &[u8], reply: Option<&[u8]>, carrier: &str, later: bool, idx: usize, t: &mut Tally, v: &mut Vec<Violation>) {
+    let class = smb::classify(payload);
+    let mut bad = |rule: &str, key: String, detail: String| {
+        v.push(Violation {
+            prop: "C17",
+            rule: rule.into(),
+            key,
+            step: idx,
+            detail,
+        });
+    };
+    let which = match &class {
+        SmbClass::NotSmb => return,
+        SmbClass::DontCare(w) => {
+            t.any(w);
+            return;
+        }
+        SmbClass::ResponseFlagged | SmbClass::OtherCommand => {
+            let why = if class == SmbClass::ResponseFlagged { "response-flag" } else { "other-command" };
+            t.judged(Verdict::Silent, format!("{}|{}|smb{}|later{}", carrier, why, if payload[4] == 0xff { 1 } else { 2 }, later as u8));
+            if reply.map(is_smb_reply).unwrap_or(false) {
+                bad("answered", format!("answered:{}", why), format!("SMB message with {} was answered", why));
+            }
+            return;
+        }
+        SmbClass::Smb1Negotiate { .. } => "smb1-negotiate",
+        SmbClass::Smb1SessionSetup => "smb1-session-setup",
+        SmbClass::Smb2Negotiate { .. } => "smb2-negotiate",
+        SmbClass::Smb2SessionSetup => "smb2-session-setup",
+    };
+    // SMB2 negotiate without any supported dialect: no reply
+    if let SmbClass::Smb2Negotiate { dialects } = &class {
+        if !dialects.iter().any(|d| smb::SMB2_KNOWN.contains(d)) {
+            t.judged(Verdict::Silent, format!("{}|smb2-negotiate|no-supported-dialect", carrier));
+            if reply.map(is_smb_reply).unwrap_or(false) {
+                bad("answered", "answered:no-supported-dialect".into(), "SMB2 negotiate offering no supported dialect was answered".into());
+            }
+            return;
+        }
+    }
+    let extra = match &class {
+        SmbClass::Smb1Negotiate { dialects } => format!("d{}", dialects.len().min(4)),
+        SmbClass::Smb2Negotiate { dialects } => {
+            let mut u = dialects.clone();
+            u.sort();
+            u.dedup();
+            format!("d{}|dup{}", dialects.len().min(4), (u.len() != dialects.len()) as u8)
+        }
+        _ => String::new(),
+    };
+    t.judged(Verdict::Reply, format!("{}|{}|{}|later{}", carrier, which, extra, later as u8));
+    let r = match reply {
+        Some(r) if !r.is_empty() => r,
+        _ => {
+            let why = match &class {
+                SmbClass::Smb2Negotiate { dialects } => {
+                    let mut u = dialects.clone();
+                    u.sort();
+                    u.dedup();
+                    if u.len() != dialects.len() {
+                        "duplicate-dialects"
+                    } else {
+                        "-"
+                    }
+                }
+                _ => "-",
+            };
+            bad("unanswered", format!("unanswered:{}:{}", which, why), format!("{} request of {} bytes over {} was not answered", which, payload.len(), carrier));
+            return;
+        }
+    };
+    // NetBIOS framing
+    if r.len() < 4 || r[0] != 0 {
+        bad("nbt", "nbt-type".into(), "reply is not a NetBIOS session message".into());
+        return;
+    }
+    let nlen = ((r[1] as usize & 1) << 16) | ((r[2] as usize) << 8) | r[3] as usize;
+    if nlen != r.len() - 4 {
+        bad("nbt-length", "nbt-length".into(), format!("NetBIOS length {} but {} bytes follow", nlen, r.len() - 4));
+    }
+    let m = &r[4..];
+    let q = &payload[4..];
+    match &class {
+        SmbClass::Smb1Negotiate { .. } | SmbClass::Smb1SessionSetup => {
+            let (qh, rh) = match (Smb1Hdr::decode(q), Smb1Hdr::decode(m)) {
+                (Some(a), Some(b)) => (a, b),
+                _ => {
+                    bad("smb1-header", "smb1-header".into(), "reply does not carry an SMB1 header".into());
+                    return;
+                }
+            };
+            if rh.flags & 0x80 == 0 {
+                bad("reply-flag", "smb1-reply-flag".into(), "reply flag not set".into());
+            }
+            if rh.command != qh.command {
+                bad("command", "smb1-command".into(), format!("reply command {:#x}, request {:#x}", rh.command, qh.command));
+            }
+            if (rh.pid_high, rh.pid_low, rh.tid, rh.uid, rh.mid) != (qh.pid_high, qh.pid_low, qh.tid, qh.uid, qh.mid) {
+                bad("correlation", "smb1-correlation".into(), format!("PID/TID/UID/MID {:?} not echoed: {:?}", (qh.pid_high, qh.pid_low, qh.tid, qh.uid, qh.mid), (rh.pid_high, rh.pid_low, rh.tid, rh.uid, rh.mid)));
+            }
+            let b = &m[32..];
+            if b.is_empty() {
+                bad("body", "smb1-body".into(), "reply without parameter block".into());
+                return;
+            }
+            let wc = b[0] as usize;
+            if b.len() < 1 + 2 * wc + 2 {
+                bad("body", "smb1-body".into(), format!("WordCount {} does not fit the reply", wc));
+                return;
+            }
+            let words = &b[1..1 + 2 * wc];
+            let bc = u16::from_le_bytes([b[1 + 2 * wc], b[2 + 2 * wc]]) as usize;
+            let bytes = &b[3 + 2 * wc..];
+            if bc != bytes.len() {
+                bad("byte-count", "smb1-byte-count".into(), format!("ByteCount {} but {} bytes follow", bc, bytes.len()));
+            }
+            if let SmbClass::Smb1Negotiate { dialects } = &class {
+                if wc != 17 {
+                    bad("body", "smb1-negotiate-wordcount".into(), format!("negotiate response with WordCount {}", wc));
+                    return;
+                }
+                let di = u16::from_le_bytes([words[0], words[1]]) as usize;
+                if di >= dialects.len() {
+                    bad("dialect", "smb1-dialect-index".into(), format!("DialectIndex {} but {} dialects were offered", di, dialects.len()));
+                }
+                // extended security: ByteCount covers the 16-byte GUID and the security blob
+                if bytes.len() < 16 {
+                    bad("blob", "smb1-negotiate-blob".into(), "negotiate response data shorter than the server GUID".into());
+                }
+            } else {
+                if wc != 4 {
+                    bad("body", "smb1-session-wordcount".into(), format!("session-setup response with WordCount {}", wc));
+                    return;
+                }
+                let blob = u16::from_le_bytes([words[6], words[7]]) as usize;
+                if blob > bytes.len() {
+                    bad("blob", "smb1-session-blob".into(), format!("SecurityBlobLength {} exceeds the {} data bytes present", blob, bytes.len()));
+                }
+            }
+        }
+        SmbClass::Smb2Negotiate { .. } | SmbClass::Smb2SessionSetup => {
+            let (qh, rh) = match (Smb2Hdr::decode(q), Smb2Hdr::decode(m)) {
+                (Some(a), Some(b)) => (a, b),
+                _ => {
+                    bad("smb2-header", "smb2-header".into(), "reply does not carry an SMB2 header".into());
+                    return;
+                }
+            };
+            if rh.flags & 1 == 0 {
+                bad("reply-flag", "smb2-reply-flag".into(), "SMB2_FLAGS_SERVER_TO_REDIR not set".into());
+            }
+            if rh.command != qh.command {
+                bad("command", "smb2-command".into(), format!("reply command {}, request {}", rh.command, qh.command));
+            }
+            if (rh.message_id, rh.async_id, rh.session_id) != (qh.message_id, qh.async_id, qh.session_id) {
+                bad("correlation", "smb2-correlation".into(), "MessageId/AsyncId/SessionId not echoed".into());
+            }
+            let b = &m[64..];
+            if let SmbClass::Smb2Negotiate { dialects } = &class {
+                if b.len() < 64 {
+                    bad("body", "smb2-negotiate-body".into(), format!("negotiate response body of {} bytes", b.len()));
+                    return;
+                }
+                let rev = u16::from_le_bytes([b[4], b[5]]);
+                if !dialects.contains(&rev) {
+                    bad("dialect", "smb2-dialect".into(), format!("DialectRevision {:#06x} was not offered ({:x?})", rev, dialects));
+                }
+                let off = u16::from_le_bytes([b[56], b[57]]) as usize;
+                let len = u16::from_le_bytes([b[58], b[59]]) as usize;
+                if off < 128 || off + len != m.len() {
+                    bad("blob", "smb2-negotiate-blob".into(), format!("SecurityBufferOffset {} + SecurityBufferLength {} does not match the {} byte message", off, len, m.len()));
+                }
+            } else {
+                if b.len() < 8 {
+                    bad("body", "smb2-session-body".into(), format!("session-setup response body of {} bytes", b.len()));
+                    return;
+                }
+                let off = u16::from_le_bytes([b[4], b[5]]) as usize;
+                let len = u16::from_le_bytes([b[6], b[7]]) as usize;
+                if off < 72 || off + len != m.len() {
+                    bad("blob", "smb2-session-blob".into(), format!("SecurityBufferOffset {} + SecurityBufferLength {} does not match the {} byte message", off, len, m.len()));
+                }
+            }
+        }
+        _ => {}
+    }
+}
+
+pub fn check(a: &Analysis, _aux: &mut Aux, t: &mut Tally) -> Vec<Violation> {
+    let mut v = Vec::new();
+    let sigs = sig::signatures();
+    let smb_sig = |p: &[u8], datagram: bool| -> Option<App> {
+        match sig::decide(&sigs, p, datagram) {
+            Decision::Match { sig, .. } if matches!(sigs[sig].app, App::Smb1 | App::Smb2) => Some(sigs[sig].app),
+            _ => None,
+        }
+    };
+    for x in a.udp_exchanges() {
+        if smb_sig(x.payload, true).is_none() {
+            continue;
+        }
+        judge(x.payload, x.reply, &format!("udp{}", if x.v6 { 6 } else { 4 }), false, a.steps[x.si].idx, t, &mut v);
+    }
+    for st in a.tcp_streams() {
+        if st.dirty || st.segs.is_empty() {
+            continue;
+        }
+        let s0 = &st.segs[0];
+        let p0 = &st.stream[..s0.len];
+        let app = match smb_sig(p0, false) {
+            Some(app) => app,
+            None => continue,
+        };
+        let v6 = matches!(st.flow.src, std::net::IpAddr::V6(_));
+        let carrier = format!("tcp{}", if v6 { 6 } else { 4 });
+        for (k, sg) in st.segs.iter().enumerate() {
+            let p = &st.stream[sg.off..sg.off + sg.len];
+            if k > 0 {
+                // dialogue on the identified flow: only messages of the same SMB generation
+                let same = p.len() >= 8 && p[4] == if app == App::Smb1 { 0xff } else { 0xfe } && &p[5..8] == b"SMB";
+                if !same {
+                    continue;
+                }
+                t.probe("second-message-on-smb-flow");
+            }
+            judge(p, sg.reply_app.as_deref(), &carrier, k > 0, a.steps[sg.si].idx, t, &mut v);
+        }
+    }
+    v
 }
